@@ -128,7 +128,7 @@ def gen_scenario(rng: random.Random, feat: dict | None = None) -> dict:
                 elif feat.get("abs") and r > (0.9 - 0.4 * (feat.get("abs") == "many")) and home[up] == si and rec.startswith("P"):
                     a["abs"] = 0
                 else:
-                    a["off"] = -rng.choice([1, 1, 1, 2])
+                    a["off"] = -rng.choice([1, 2, 2, 3] if feat.get("deep_offsets") else [1, 1, 1, 2])
                     if a["off"] == 0:
                         a["off"] = -1
                 outs = ["succeeded"] * 5 + ["failed", "started"] + customs.get(up, []) * 2
@@ -260,7 +260,7 @@ def gen_scenario(rng: random.Random, feat: dict | None = None) -> dict:
                 scn["ops"].append({"tick": tick, "cmd": "release", "args": {"tasks": [f"{p}/{t}" for p, t in sel]}})
         scn["ops"].sort(key=lambda o: o["tick"])
     if feat.get("warm") and fcp >= 2:
-        scn["startcp"] = rng.randint(2, fcp)
+        scn["startcp"] = rng.randint(3, max(3, fcp - 2)) if feat.get("deep_offsets") and fcp >= 5 else rng.randint(2, fcp)
         scn["options"] = {"startcp": str(scn["startcp"])}
     if feat.get("sequential"):
         scn["sequential"] = [t for t in tasks if rng.random() < 0.5] or [tasks[0]]
